@@ -15,6 +15,9 @@ LEVEL_TEXT = ("static: decides on every path (a) each read through a raw (pointe
               "themselves, (e) no parser path leaks, double-frees or uses released memory, (f) fixed-size destinations are written with their own size, (g) a record setter releases the value it replaces, (h) NULL-terminated "
               "hostent arrays keep a slot for the terminator. "
               "Does not decide absence of all other undefined behaviour nor termination of loops other than pointer chasing.")
+# fifth-round additions
+TECHNIQUE += "; " + 'must-pass-through of a reset after a release of *out (R-C02-NODANGLE)'
+LEVEL_TEXT += " " + '(NODANGLE) after ares_free(*out) or a release function given *out, every path to a return stores to *out again; (TERM) the index of a NULL-terminated array advances only in rounds that stored an element.'
 LEVEL_NOTE = "trusts clang CFG + extractor; struct ares_buf is opaque outside ares_buf.c (checked: R-C02-OPAQUE), so only that file can touch message bytes directly"
 DESIGN_REF = "DESIGN.md §6/C02"
 EXPLANATION = LEVEL_TEXT
